@@ -42,7 +42,8 @@ CLAIMS = {
              "model: derive_* with functions, period merges, duplicates).",
         note=COMMON_NOTE + "Operations without a Triangle->Triangle model (derive_fields/derive_metadata/replace with "
              "function arguments, frame/CSV/binary readers) are covered by the Spec predicate on implementation "
-             "outputs only.",
+             "outputs only."
+             " Audit follow-up: closure over 69 modelled operations (Op 10 + Op2 24 + Op3 25 + Op4 10; run4_canonical, with run4_slices_contiguous / run4_slice_order: contiguity and slice order are re-established for every chain result modulo Python's == on metadata). The Spec verdicts evaluated on implementation dumps are EQUIVALENT to the propositions (isCanonical_iff, sliceOrder_sound, contiguous_of_sliceOrder). Order laws of Metadata.__lt__ are claimed where the code has an order: metadata whose shared detail / loss-detail keys carry values of one kind (bool/int/float one kind, None its own); there Python's < equals the model's comparison and raises TypeError only outside (Metadata.cmp?, metadata_cmpPy_eq, metadata_cmpPy_error, metadata_ltPy_trichotomous; checked pair by pair in stream ii-b). The constructor's TypeError for incomparable detail values is not modelled (which pairs Timsort compares depends on input order): constructor theorems are claimed for pairwise comparable cell lists (ofCells_ok_iff_comparable). Where a model answers Err.other (tabular row domain, ndarray arithmetic inside Fn.Ex, inf/nan, make_pred_triangle resolutions <= 0, disaggregate_experience on incremental triangles) the closure theorem is silent and the chain is counted as outside-model. Spec-only: chain-ladder round trip (external package), convert_to_dollars, S3 paths; the iterable type (list / tuple / generator) is correspondence only. The earlier sentence that function-argument operations and readers are Spec-only is superseded: they are under run4_canonical.",
         tech="Lean 4 proof (order laws by compareLex structure, uniqueness of stable sort, induction over op lists) + "
              "probed tables + differential correspondence with compiled Lean model"),
     "C02": dict(level=PV, ref="§7 C02",
@@ -57,7 +58,8 @@ CLAIMS = {
              "one-cell extension, every single-edit variant, and all pairs (transitivity through the matrix) of the "
              "sub-triangles of a small cell universe in both bases; the Lean Spec judges the implementation's answers.",
         note=COMMON_NOTE + "NaN-free data; 0-d arrays excluded from hash clauses (tuple(v) fails); builtin hash() is "
-             "trusted to respect == on int/float/str/date/tuple/frozenset.",
+             "trusted to respect == on int/float/str/date/tuple/frozenset."
+             " Audit follow-up: triEq_iff_contents states the headline 'exactly when' clause as one iff; spec_cellHash / spec_metaEq / spec_metaHash bridge the remaining Spec clauses; equal cells are hashable together with the same key (hashKey_ok_of_cellEq, hashable_iff_of_cellEq) EXCEPT when one holds a 0-d array where the other holds the scalar (== holds, hash raises for the 0-d array: kernel-checked example). Domain: triangles of one basis; a plain Cell compared with an IncrementalCell of identical content raises AttributeError (modelled, outside the property).",
         tech="Lean 4 proof (iff characterisation, counting argument for edits) + probed hash tables + truth-table "
              "correspondence"),
     "C03": dict(level=PV, ref="§7 C03, §12.6",
@@ -90,20 +92,22 @@ CLAIMS = {
              "assumed pure, annotations honoured (two unannotated `resolution` parameters assumed tuple[int, str], checked on every call of "
              "the run), dict keys not tracked, caches not modelled. If a refactor makes the translator lose an entry function (unknown library "
              "call) the operation moves to registryUncovered, the evidence shows heapir/registry_ops_not_covered > 0 and the fingerprint "
-             "correspondence remains; only a detected write through a protected reference breaks the build.",
+             "correspondence remains; only a detected write through a protected reference breaks the build."
+             " Audit follow-up: frame_protected_reachable and separated are stated over the transitive closure Heap.Reach (any depth) in an entry heap without dangling references; chains may create the data frame on the way (ChainOK: an object handed to an unprotected parameter must exist when the call that receives it starts; irChain_writer_reader_frame is the concrete witness). The registry has 178 operations (set operators, ==, hash, in, sum, int / 3-index __getitem__, TriangleSlice, make_pred_triangle, metadata helpers, all cached accessors read twice, triangle_json_load(s) added), all under registry_all_covered. Trusted in addition: the hand-written table ENTRY_POINTS (registry operation -> entry functions of program), cross-checked dynamically on every run by tracing (a row none of whose functions is entered is an infrastructure error). C03 has no Lean Spec predicate evaluated on the implementation's output: the oracle on the real code is a Python deep fingerprint compared before and after every call plus a rerun with read-only arrays. The first access of a cached_property / functools.cache writes a cache slot: cache slots are outside the IR model and the fingerprint (observable state is not written). 5 accumulating + 7 cell-level hand-written helper models are compared with the implementation through drv_c03; 5 cell-level models are tied to the source by their regenerated pattern only; all 17 are also in the HeapIR program.",
         tech="Lean 4 soundness theorem for a write discipline on an imperative IR + AST-to-IR translator re-run each check + decide over the "
              "regenerated program + fingerprint correspondence"),
     "C04": dict(level=PV, ref="§7 C04",
         text="Kernel-checked theorems about the model of to_incremental / to_cumulative: toCum_toInc (exact round trip "
-             "for every well-formed cumulative triangle: order, dates, metadata, key order, values and value kinds; "
+             "for every well-formed cumulative triangle: order, dates, metadata, key sets, values and value kinds (key ORDER is preserved in the model only: the implementation builds the dict from a Python set and the harness ignores key order); "
              "Cell becomes CumulativeCell), toInc_toCum (every complete incremental triangle), identity on the target "
-             "basis, TriangleError on a broken chain and on key mismatch in either direction, toInc_row_spec_partial "
+             "basis, TriangleError on a broken chain and on key mismatch in either direction, toInc_row_spec "
              "(one increment per evaluation date per row, produced by the row function). toInc_row_spec (bridge to the lookup-based Bool Spec); none open. Correspondence: "
              "dumps of both conversions incl. value kind and dtype, both round trips cell by cell on the "
              "implementation, Spec.toIncRowSpec (independent predecessor lookup) on its output, refusals for every "
              "one-link-removed / shifted variant.",
         note=COMMON_NOTE + "Hypothesis beyond the statement: each field keeps one kind/dtype/shape along a row (the "
-             "quantifier's value classes satisfy it). Exactly representable values only.",
+             "quantifier's value classes satisfy it). Exactly representable values only."
+             " Audit follow-up: both key-mismatch refusals have kernel-checked witnesses (exTbadKeys, exUbadKeys); rowKey_eq_iff_python_key: on wire-form metadata the model's row key is Python's (period, metadata) grouping key. Declared: Spec.toCumRowSpec is evaluated on the implementation's output but has no bridge theorem on the model; toInc_row_spec assumes one value kind per field along a row (stronger than 'rows keep one field set'; needed for the exact round trip: a row going from array to scalar does not come back equal).",
         tech="Lean 4 theorems over Q (telescoping by induction on rows, regrouping lemmas) + differential correspondence"),
     "C05": dict(level=PV, ref="§7 C05/C06/C19",
         text="17 kernel-checked theorems, none open, about a byte-level codec model (bit view: ints with Int64 range, "
@@ -118,20 +122,23 @@ CLAIMS = {
              "inferred compression, empty triangle, non-ASCII, 0-400 keys.",
         note=COMMON_NOTE + "gzip and UTF-8 are trusted library layers. Domain: metadata that Python's == identifies "
              "share one representation (1 vs 1.0 vs True, dict order); int limit reads back as float; numpy scalar "
-             "types read back as Python scalars; NaN limit is the format's encoding of None.",
+             "types read back as Python scalars; NaN limit is the format's encoding of None."
+             " Audit follow-up: decode_encodePy_firstRepr : WF t -> decode (encodePy t) = ok (firstRepr t) holds for EVERY triangle of the domain (no coherence hypothesis: metadata that Python's == identifies come back in the first cell's representation) and is the read-back oracle of the md-repr stream; fromBinary_encode / fromBinary_encodePy carry the round trip through the final Triangle(cells); roundtrip_compressed_py for the writer as written. Generated triangles hold no NaN among detail values / limits (byte-exact comparison only; the theorem itself has no such restriction).",
         tech="Lean 4 proof (parser/printer round trip by per-class lemmas and induction over records) + regenerated "
              "constants + byte-exact bidirectional correspondence"),
     "C06": dict(level=PV, ref="§7 C05/C06/C19",
-        text="15 kernel-checked theorems, none open: encode_layout_v1 (header bytes, tag values, field widths and every "
-             "struct format string of writer and reader equal the literal v1 constants - decide over the regenerated "
-             "table, so a symmetric writer+reader edit that no round trip can see breaks it), tags_distinct, "
+        text="15 kernel-checked theorems, none open: encode_layout_v1 (magic, version and tag values equal the literal v1 constants), encode_formats_v1 and "
+             "formats_per_function_v1 (every struct format string of writer and reader, and which function uses which, equal the v1 "
+             "formats - decide over the regenerated tables, so a symmetric writer+reader edit that no round trip can see breaks it), "
+             "kernel-checked literal byte vectors and the four small shipped golden files (see the note), tags_distinct, "
              "dictEnd_not_value_tag, encode_header, pool_sorted, field_widths, little_endian, "
              "metadata_record_only_on_change, independent_codec_agrees, encode_perm_invariant (bytes independent of the "
              "order cells were supplied, via C01), decode_bad_magic_error, decode_bad_version_error. The Lean encoder is "
              "written from the layout comment (the independent codec). Correspondence adds the history: the five "
              "shipped .trib files decode (model and implementation) to dumps pinned under corpus/golden and re-encode "
              "byte-identically; 42 pinned generated files under corpus/pinned.",
-        note=COMMON_NOTE + "Pinned dumps were recorded once from the verified tree.",
+        note=COMMON_NOTE + "Pinned dumps were recorded once from the verified tree."
+             " Audit follow-up: the layout is pinned by kernel-checked LITERAL byte vectors written by to_binary of the verified tree (encode_exTriangle_bytes / encodePy_exTriangle_bytes / decode_exTriangle_bytes: 242 bytes with every value kind; plain-Cell and CumulativeCell pairs), by golden_meyers / golden_holey_init_tri / golden_missing_eval / golden_missing_cells (decode bytes = ok recordedCells and encode recordedCells = bytes, decide +kernel; c06.py checks on every run that the Lean literals are the sha-pinned shipped files), by formats_per_function_v1 (which function uses <h and which <H) and pool_content; encode_layout_v1 itself states magic, version and tags only. The decoder written only from the layout comment (notes/probes/independent_trib_decoder.py) runs inside c06.py on every generated file and on the history files. ragged_aq_triangle.trib (31 KB) stays in correspondence only.",
         tech="Lean 4 proof over regenerated format tables + independent encoder/decoder model + golden-file history"),
     "C19": dict(level=PV, ref="§7 C05/C06/C19",
         text="13 kernel-checked theorems, none open: ten per-class prefix lemmas (on a strict prefix of its encoding a "
@@ -141,20 +148,22 @@ CLAIMS = {
              "from_binary(file[:n]) vs Model.decode(bytes[:n]) and Spec.prefixSafe on the implementation's answer; "
              "compressed files: every truncation must raise.",
         note=COMMON_NOTE + "gzip's behaviour on truncated input is library behaviour: enumerated at every offset, not "
-             "proved. BufferedReader.peek/short-read semantics as modelled.",
+             "proved. BufferedReader.peek/short-read semantics as modelled."
+             " Audit follow-up: decode_prefix_safe_py (the writer as written, under coherent) and fromBinary_prefix_safe (what from_binary returns, including Triangle(cells)); compressed_prefix_refused states the compressed clause relative to the named library fact 'a truncated gzip stream is an error' (false for a multi-member writer, which is why the harness also cuts at every gzip member signature); the prefixes driver op reports wf / coherent / fileIsEncode / fileIsEncodePy and c19.py counts theorem instances (all files of a run). For non-coherent triangles prefix safety with (firstRepr t).take k is not proved; the all-offsets stream uses coherent triangles only.",
         tech="Lean 4 proof (prefix-safety of a parser by per-class lemmas + induction over records) + all-offsets "
              "correspondence"),
     "C07": dict(level=PV, ref="§7 C07",
         text="Model of triangle_to_dict and of the decoder (object_hook applied bottom-up to every object, "
              "_parse_cell_set, _parse_observation) over a JSON AST. Proved: ISO date round trip for every valid date "
-             "1000-9999, typed-kind lemmas, fromDict_toDict_partial toDict_shape, fromDict_plain (any AST of that shape, however produced, loads to the described triangle) and "
+             "1000-9999, typed-kind lemmas, toDict_shape, toDict_shape_strict (ISO dates are exactly YYYY-MM-DD: dateIso_shape, strictIso_unique), spec_slicesOnce / spec_textSpec / spec_loadSpec (Spec bridges), roundtrip_every_route (string, handle, path, dict and the deprecated entry points), fromDict_plain (any AST of that shape, however produced, loads to the described triangle) and "
              "fromDict_toDict : WFjson t -> fromDict (toDict t) = ok (asTyped t) with no further hypotheses, concrete round trips, and witnesses that the stated domain restrictions "
              "are real (risk_basis None, a field named 'cells'); none open. Correspondence: every export "
              "route against the model's AST via a plain json parser, every import route (string, handle, path, dict) "
              "against model, original and each other incl. Python class/dtype/int-vs-float/None/sample order, JSON "
              "text printed by the Lean driver and by an independent serializer loaded by the implementation.",
         note=COMMON_NOTE + "json text layer and float repr round trip trusted (exercised with non-dyadic floats in a "
-             "separate stream). Domain (WFjson): risk_basis not None; keys avoid the hook's trigger names; years >= 1000.",
+             "separate stream). Domain (WFjson): risk_basis not None; keys avoid the hook's trigger names; years >= 1000."
+             " Audit follow-up, exact domain WFjson: risk_basis not None; field / detail keys avoid the hook's trigger names; detail values str/int/float/bool (no None detail values, no bool limit); scalars int/float/None; arrays 1-d int64/float64 and non-empty for int64 (rank-2 arrays and empty int64 arrays outside); metadata that == identifies appear in one representation (mdCoherent); years >= 1000; NaN, +-inf and -0.0 cannot be expressed in the model (generated separately, compared on the implementation only). Witnesses ex_empty_int64_array, ex_bool_limit, ex_none_detail_value, ex_rank2_flat_in_model, ex_mdCoherent; non-vacuity ex2_wf / ex2_roundtrip (2 slices, 5 cells).",
         tech="Lean 4 model of encoder/decoder over a JSON AST + differential correspondence through plain parsers"),
     "C08": dict(level=PV, ref="§7 C08",
         text="14 kernel-checked theorems about the model of aggregate: window_consecutive/window_step/window_spec, "
@@ -168,7 +177,8 @@ CLAIMS = {
              "origins at any month end in a 9-year span, day/week resolutions on day-level triangles, with the Spec "
              "(closed-form windows, conservation, expectStraddle) on the implementation's output.",
         note=COMMON_NOTE + "Non-month-end origins with month units only in a separate stream compared against the model. "
-             "Window disjointness relies on C12 date arithmetic (Spec evaluates the closed form on every output).",
+             "Window disjointness relies on C12 date arithmetic (Spec evaluates the closed form on every output)."
+             " Audit follow-up: the window anchor is tied to the requested origin (anchor_spec_month: the anchor is the last day of month M0 + j*q, strictly before the earliest period start, the next grid point not before it; anchor_spec_day; window_origin_month gives the closed form of every window from period_origin; evalGrid_origin_month: d in grid iff d = origin + k*res and first <= d <= last); aggPeriod_sums_inside_month: an output cell's field equals the sum over EXACTLY the source cells with o.ps <= c.ps, c.pe <= o.pe and the same evaluation date; straddle_iff_triangleError_month / straddle_raises_month (no side hypothesis); aggregate_union_of_slices / aggregate_conserves lift to all slices; spec_windowsOk_month(_all), spec_evalOk_month, spec_expectStraddle_month bridge the Spec. Declared: the closed forms are for month units (for day/week units the anchor, disjointness and the regime-independent theorems are proved); Spec.C08.cover / cellSums / keysOk / conserves are evaluated on every implementation output but have no Bool bridge to the model; conservation with an evaluation resolution given at the same time is not lifted; the TriangleError statement is per slice (an earlier slice's other error can pre-empt it).",
         tech="Lean 4 theorems (sum over a partition) + differential correspondence"),
     "C09": dict(level=PV, ref="§7 C09",
         text="25 kernel-checked theorems: the rule table regenerated from /repo by probing each closure is re-proved on "
@@ -216,7 +226,8 @@ CLAIMS = {
              "dates x all k, 200k random pairs.",
         note=COMMON_NOTE + "IEEE rounding inside add_months/dev_lag_months is not modelled (decided by enumeration on the "
              "stated range). Known finding D8 (results before 1970-01-01) is listed in known_findings.json and printed "
-             "as KNOWN-FINDING; any failing input with expected result >= 1970 is a violation.",
+             "as KNOWN-FINDING; any failing input with expected result >= 1970 is a violation."
+             " Audit follow-up: resolution_delta is also modelled on RAW unit strings as written (resolutionDeltaRaw_*: the function tests units == 'month' on the raw string, so (1,'months'), 'quarter', 'year', 'week' add ONE DAY) - an unvalidated precondition: every caller in /repo passes standardised units or raw 'days'; the property's clauses are claimed after standardize_resolution. Compose / undo (addMonths_add, addMonths_neg) are judged on the implementation through Spec.composeOk / undoOk on month-end starts 1900-2100 (spec_compose, spec_undo); ordinal_ofOrdinal is a property theorem. Fractional offsets differ from the code at round() ties of frac x days_in_month (exact half-even vs float): those inputs are excluded from the model comparison, the inverse law is still demanded of their results.",
         tech="Lean 4 theorems over Q (floor/round arithmetic) + exhaustive enumeration digests from the compiled model"),
     "C13": dict(level=PV, ref="§7 C13",
         text="63 kernel-checked theorems (incl. is_slicewise_disjoint and slice_period_rows, Model/AccessorsExt): every accessor equals the sorted-distinct values / counts of the cells "
@@ -228,7 +239,8 @@ CLAIMS = {
              "Spec definitions, evaluationDate_spec, numSamples_spec; none open. Correspondence: accessor dumps vs model and taxonomy booleans vs "
              "independently written Spec definitions over regular / semi-regular / irregular / erratic layouts.",
         note=COMMON_NOTE + "Month-unit taxonomy compared only where float (in)equalities agree with the exact ones "
-             "(guard counts in the evidence).",
+             "(guard counts in the evidence)."
+             " Audit follow-up: 33 earlier + 43 new property theorems (29 helpers moved to Lemmas/AccessorsHelpers.lean): evalDateResolution_spec / _defined / _same_month / _distinct_months; periodResolution_largest (0 < r, greatest), _defined_iff; experienceGaps_sound / _complete / _ascending / _inverted_iff; fifteen spec_* bridges (sortedDistinct, counts, numSamples, gaps, common, recombine, both resolutions). Readings declared: eval_date_resolution returns 0 (not None) when >= 2 evaluation dates lie in one month - degenerate, every month count divides a zero gap (evalDateResolution_same_month); experience_gaps are specified for disjoint periods - for overlapping periods the code reports inverted ranges (experienceGaps_inverted_iff; the Spec clause is gated by disjoint).",
         tech="Lean 4 theorems (sortedDedup, gcd, pairwise non-overlap) + differential correspondence"),
     "C14": dict(level=PV, ref="§7 C14",
         text="PARTIAL (pandas' CSV text layer - dtype inference, NaN handling, date parsing, float formatting - is library behaviour outside the model, correspondence only; the row algebra is proved). 65 kernel-checked theorems, none open. Row-algebra model of the wide/long CSV writers and readers, the array data frame and the Matrix form. "
@@ -290,7 +302,8 @@ CLAIMS = {
              "pairs (triples for coalesce) of sub-triangles of a small cell universe x six join types x every `on` "
              "subset plus random larger pairs, with the Lean Spec predicates on the implementation's outputs.",
         note=COMMON_NOTE + "Hypotheses: distinct join keys inside each operand and distinct dict keys (as Python dict "
-             "building assumes); duplicates are a separate stream compared with the model only.",
+             "building assumes); duplicates are a separate stream compared with the model only."
+             " Audit follow-up: 52 property theorems + 8 witness theorems (39 generic helpers moved to Lemmas/JoinHelpers.lean). join_pairs_last(_max, _own_order): which cell a join pair carries WITHOUT a distinct-keys hypothesis (the last cell of the re-sorted reduced operand), with Spec predicates joinSpecLast / mergeSpecLast so every join and merge case gets a verdict (also when slices collapse under `on`); coalesceSpec runs on every case. Accepted reading pinned by a witness: coalesce's coordinate ignores prev_evaluation_date (coalesce_ignores_prev: two incremental cells differing only in prev -> one is dropped; merge.py:195).",
         tech="Lean 4 proof on a relational model + exhaustive small-universe differential correspondence"),
     "C16": dict(level=PV, ref="§7 C16",
         text="PARTIAL (the statistical clause 'follows the weights' and numpy's RNG are outside the model; everything structural and algebraic is proved). 29 kernel-checked theorems, none open, about the model of blend: linear_value (out = sum w_j v_j with scalar "
@@ -301,7 +314,8 @@ CLAIMS = {
              "(exact on dyadic data) for 1-4 triangles x all weight forms x both methods x seeds, Spec membership on the "
              "implementation's output, seed reproducibility, degenerate weights.",
         note=COMMON_NOTE + "Outside the model: numpy RNG stream, the statistical clause 'follows the weights'; relative "
-             "tolerance 2^-40 only where weights=None with three triangles (1/3).",
+             "tolerance 2^-40 only where weights=None with three triangles (1/3)."
+             " Audit follow-up: spec_convex / spec_agree (convexity and agreement on the blend's OUTPUT; agreement stated for copies of one canonical triangle), blend_refuses_missing_coord / blend_refuses_unequal_scalars (lifted to blend = error; the class ValueError is proved at the failing cell since an earlier cell can pre-empt it), linear_value states that every input row has length 1 or exactly S (and Spec.linearFieldOk checks it on every implementation output), closed success instance blend [blExA, blExB] = ok blExOut. The RNG-interface check is positional: the k-th recorded np.random.choice call must carry the weight vector of the cell being blended. The seeding structure (same (S, p) gives the same index vector for a fixed seed) is observed by the harness, not modelled.",
         tech="Lean 4 theorems over Q on a blend model with the RNG draws as parameters + differential correspondence"),
     "C17": dict(level=PV, ref="§7 C17, §12.6",
         text="PARTIAL (the DISTRIBUTION of the draws - volume weights of rng.choice, uniformity of rng.uniform, numpy's samplers, hence the realised mean/variance "
@@ -322,7 +336,8 @@ CLAIMS = {
              "identity-draw streams.",
         note=COMMON_NOTE + "Known finding D26 (known_findings.json): 'within the given limits' is false of the code when the limits do not "
              "bind (KNOWN-FINDING line for that signature only). float64 vs exact rationals: relative tolerance 2^-40 on the magnitude of the "
-             "series in the harness/Spec slack only. Numeric-only Python checks: moment_match mean/std bands, lognormal parameters.",
+             "series in the harness/Spec slack only. Numeric-only Python checks: moment_match mean/std bands, lognormal parameters."
+             " Audit follow-up: bootstrap-level bridges spec_bootstrap_structure, spec_first_unchanged (develop_first_unchanged lifted through _bootstrap_slice, the tag and sum(boot)), spec_bootstrapD (hypotheses: pairwise distinct coordinates, tag-injective metadata, uniform field names, canonical triangle; satisfiable by a closed example); the value clauses membership / chain / reproduces are evaluated by the driver on implementation and model outputs but have no bridge theorem (Prop form: develop_value, chain_identity, resampledAtas_identity). The probability vector p handed to rng.choice (volume weights incl. eval_date_resolution: ata_weights_probability), the call shape of every RNG call (thin: one choice(n, k, replace=False) with ValidDraw - thin_positions_count; age-to-age: choice(range(m), size=m, p, replace=True) per lag and field with the same p in every replicate) and the moments handed to the sampler are modelled and compared at the RNG interface; only the DISTRIBUTIONS realised by numpy and the lognormal parameters stay outside. me_bootstrap_limits_bind_iff is the exact signature of D26. The maximum-entropy Spec clauses mePermOk / meValueOk / meIntervalsOk and chainOkSlice / weightsOk / momentsOk are differential (they re-run the model's arithmetic); independent clauses: rankOrderOk, rankFixed, meLimitsOk, meEnvelopeOk. No kernel-checked closed instance of bootstrap = ok (mergeSort is not kernel-evaluable; closed instances exist for thin and momentMatch).",
         tech="Lean 4 theorems over Q on models of the three resamplers with the RNG draws as parameters + Spec predicates on "
              "implementation outputs + differential correspondence"),
     "C18": dict(level=PV, ref="§7 C18",
